@@ -22,6 +22,7 @@ from __future__ import annotations
 import atexit
 import contextlib
 import hashlib
+import inspect
 import itertools
 import os
 import pickle
@@ -58,6 +59,8 @@ ASSUMPTIONS = [
     "complete validates PartNumber/ETag pairs",
     "fake distributed.Variable.get(timeout) on an unset/deleted variable raises TimeoutError at once (any later set is "
     "covered by the schedule in which the get runs after it); fake Lock is a plain named mutex",
+    "the fake Variable/Lock constructors bind their arguments with the signatures of the installed distributed classes; a "
+    "client bound to a parameter other than 'client' fails on first use the way distributed 2026.8 does (AttributeError)",
     "finalise runs after all concurrent writes have returned (it needs their results; the dask graph orders it so)",
     "S3 service limits (AWS documentation): part size 5 MiB..5 GiB, part numbers 1..10000; S3 writers must report "
     "limits inside these bounds",
@@ -303,8 +306,45 @@ class ILock:
 class FakeClient:
     """Stands for a ``distributed.Client``; the fakes below find the cluster state through ``_CTX``."""
 
+    scheduler = "fake-scheduler-rpc"
+    loop = None
+
     def __reduce__(self):
         return (_current_client, ())
+
+
+# Constructor signatures of the *installed* distributed.Variable / distributed.Lock, captured before patching: the
+# fakes accept exactly the calls the real classes accept and notice a client that lands in a non-client parameter.
+_REAL_SIGS: Dict[str, Any] = {}
+
+
+def _capture_real_signatures(distributed) -> None:
+    if _REAL_SIGS:
+        return
+    for kind in ("Variable", "Lock"):
+        cls = getattr(distributed, kind)
+        if cls in (FakeVariable, FakeDLock):
+            raise HarnessError("distributed is already patched")
+        _REAL_SIGS[kind] = inspect.signature(cls.__init__)
+
+
+def _bind_like_installed(kind: str, args, kwargs):
+    """(arguments, name of the parameter that received the client or None); TypeError as the real class would."""
+    ba = _REAL_SIGS[kind].bind(None, *args, **kwargs)
+    ba.apply_defaults()
+    to = None
+    for k, v in ba.arguments.items():
+        if isinstance(v, FakeClient):
+            to = k
+    return ba.arguments, to
+
+
+def _misplaced_client(kind: str, param: str) -> Exception:
+    # what the installed distributed (2026.8) does on first use of Lock(name, <Client>): the second positional
+    # parameter is ``scheduler_rpc`` there, and a Client is not an rpc
+    return AttributeError(
+        f"'Client' object has no attribute 'semaphore_register' [installed distributed.{kind} got the client as {param!r}]"
+    )
 
 
 def _current_client():
@@ -330,16 +370,23 @@ class _VarIsSet:
 
 
 class FakeVariable:
-    def __init__(self, name=None, client=None, **kw):
-        self.name = name
-        self.client = client
+    def __init__(self, *args, **kwargs):
+        a, to = _bind_like_installed("Variable", args, kwargs)
+        self.name = a.get("name")
+        self._client_as = to if to not in (None, "client") else None
+
+    def _use(self) -> None:
+        if self._client_as is not None:
+            raise _misplaced_client("Variable", self._client_as)
 
     def set(self, value, **kw) -> None:
         _yield("v.set")
+        self._use()
         _CTX.vars[self.name] = value
 
     def get(self, timeout=None, **kw):
         _yield("v.get")
+        self._use()
         while self.name not in _CTX.vars:
             if timeout is not None:
                 raise TimeoutError(f"Variable {self.name} not set")
@@ -349,6 +396,7 @@ class FakeVariable:
 
     def delete(self) -> None:
         _yield("v.del")
+        self._use()
         _CTX.vars.pop(self.name, None)
 
     def __reduce__(self):
@@ -368,14 +416,18 @@ class _NamedLock:
 
 
 class FakeDLock:
-    def __init__(self, name=None, client=None, **kw):
-        self.name = name
+    def __init__(self, *args, **kwargs):
+        a, to = _bind_like_installed("Lock", args, kwargs)
+        self.name = a.get("name")
+        self._client_as = to if to not in (None, "client") else None
 
     def _nl(self) -> _NamedLock:
         return _CTX.dlocks.setdefault(self.name, _NamedLock(self.name))
 
     def acquire(self, blocking=True, timeout=None) -> bool:
         _yield("D.acq")
+        if self._client_as is not None:
+            raise _misplaced_client("Lock", self._client_as)
         nl = self._nl()
         while nl.held:
             if not blocking:
@@ -523,6 +575,7 @@ def _installed(ctx: _Ctx):
 
     if _CTX is not None:
         raise HarnessError("nested scenario")
+    _capture_real_signatures(distributed)
     saved_state = dict(S3._state)
     saved = [(S3, n, getattr(S3, n)) for n in ("_dask_client", "Lock") if hasattr(S3, n)]
     saved += [(distributed, n, getattr(distributed, n)) for n in ("get_client", "Variable", "Lock")]
@@ -629,7 +682,7 @@ def _exc_where(e: BaseException) -> tuple:
     for fr in traceback.extract_tb(e.__traceback__):
         if os.path.realpath(fr.filename).startswith(_REPO_ODC):
             where = f"{os.path.relpath(fr.filename, REPO)}:{fr.lineno} {fr.name}"
-    return where, f"{type(e).__name__}: {str(e)[:120]}"
+    return where, f"{type(e).__name__}: {str(e)[:160]}"
 
 
 def _ctxmsg(case: dict, run: _Run) -> str:
@@ -1157,6 +1210,11 @@ def _known_d18(sub, case, msg) -> bool:
     return sub in ("sched_random", "sched_dfs2") and case["mode"] == "local" and "raised AssertionError" in msg and " initiate;" in msg
 
 
+def _known_d23(sub, case, msg) -> bool:
+    """distributed.Lock(name, client): the installed distributed takes scheduler_rpc there."""
+    return sub in ("sched_random", "sched_dfs2") and case["mode"] != "local" and "semaphore_register" in msg
+
+
 def build(chk: Check) -> None:
     chk.sub("sched_random", o_sched, strategy=s_sched(), n={"quick": 5000, "thorough": 300000},
             budget_s={"quick": 50, "thorough": 800})
@@ -1170,3 +1228,4 @@ def build(chk: Check) -> None:
     chk.known("D16", _known_d16)
     chk.known("D17", _known_d17)
     chk.known("D18", _known_d18)
+    chk.known("D23", _known_d23)
